@@ -617,7 +617,7 @@ func checkMemReaderPositions(c *Ctx, rule string, ri *readerInfo) {
 		return
 	}
 	c.Analysed(shortFn(posFn))
-	checkPosWalk(c, rule, ri, roles, posFn)
+	initOf := checkPosWalk(c, rule, ri, roles, posFn)
 
 	// Skip: returns the position before (pos(false)), commits pos(true) to the stored position and begin = forward
 	srecv := ssa.Value(skip.Params[0])
@@ -662,14 +662,14 @@ func checkMemReaderPositions(c *Ctx, rule string, ri *readerInfo) {
 			for _, r := range rootsOf(skip, st.Val, nil) {
 				if f, ok := r.(*ssa.Field); ok && f.X == ssa.Value(after) {
 					pf := f.X.Type().Underlying().(*types.Struct).Field(f.Field).Name()
-					committed[strings.ToLower(name)+"<-"+strings.ToLower(pf)] = true
+					committed[name+"<-"+pf] = true
 				}
 				if fa2, ok := r.(*ssa.FieldAddr); ok {
 					if al, ok := fa2.X.(*ssa.Alloc); ok {
 						for _, ref := range *al.Referrers() {
 							if s2, ok := ref.(*ssa.Store); ok && s2.Addr == ssa.Value(al) && s2.Val == ssa.Value(after) {
 								pf := al.Type().(*types.Pointer).Elem().Underlying().(*types.Struct).Field(fa2.Field).Name()
-								committed[strings.ToLower(name)+"<-"+strings.ToLower(pf)] = true
+								committed[name+"<-"+pf] = true
 							}
 						}
 					}
@@ -677,14 +677,21 @@ func checkMemReaderPositions(c *Ctx, rule string, ri *readerInfo) {
 			}
 		}
 	}
-	c.Check(rule, "reader: Skip commits offset, line and column of the position after the lexeme", skip.Pos(),
-		committed["offset<-offset"] && committed["line<-line"] && committed["column<-column"],
-		fmt.Sprintf("stored position fields: %v (each of offset, line, column must receive the same-named field of pos(true))", sortedKeys(committed)))
+	// the commit is the inverse of the initialisation: the reader field a Position field starts from receives that Position field
+	commitOK := true
+	for _, pf := range []string{"Offset", "Line", "Column"} {
+		if initOf[pf] == "" || !committed[initOf[pf]+"<-"+pf] {
+			commitOK = false
+		}
+	}
+	c.Check(rule, "reader: Skip commits offset, line and column of the position after the lexeme", skip.Pos(), commitOK,
+		fmt.Sprintf("stored position fields: %v; a position starts from %v (each reader field a position field starts from must receive that field of pos(true))", sortedKeys(committed), initOf))
 }
 
 // checkPosWalk: pos(pending) starts from the stored (file name, offset, line, column) and, when pending, walks the runes of
 // text[begin:forward]: Offset+1 per rune; Line+1 and Column=1 on '\n', otherwise Column+1.
-func checkPosWalk(c *Ctx, rule string, ri *readerInfo, roles memRoles, posFn *ssa.Function) {
+func checkPosWalk(c *Ctx, rule string, ri *readerInfo, roles memRoles, posFn *ssa.Function) map[string]string {
+	initOf := map[string]string{} // Position field -> reader field it starts from
 	recv := ssa.Value(posFn.Params[0])
 	// the result struct
 	var res *ssa.Alloc
@@ -699,7 +706,7 @@ func checkPosWalk(c *Ctx, rule string, ri *readerInfo, roles memRoles, posFn *ss
 	}
 	if res == nil {
 		c.Undecided(rule, "reader positions: the Position value built by "+shortFn(posFn), posFn.Pos(), "no local Position value")
-		return
+		return initOf
 	}
 	pst := res.Type().(*types.Pointer).Elem().Underlying().(*types.Struct)
 	pfield := func(i int) string { return pst.Field(i).Name() }
@@ -723,7 +730,7 @@ func checkPosWalk(c *Ctx, rule string, ri *readerInfo, roles memRoles, posFn *ss
 	}
 	c.Check(rule, "reader positions: the pending part is walked rune by rune over text[begin:forward]", posFn.Pos(), overLexeme, "no `for _, r := range string(text[begin:forward])` in the position function")
 	if rng == nil {
-		return
+		return initOf
 	}
 	// the walk happens only when the flag parameter is true
 	var flag *ssa.Parameter
@@ -847,19 +854,26 @@ func checkPosWalk(c *Ctx, rule string, ri *readerInfo, roles memRoles, posFn *ss
 		desc = append(desc, fmt.Sprintf("%s:%s/%s/loop=%v", u.field, u.kind, u.cond, u.inLoop))
 	}
 	sort.Strings(desc)
-	initOK := false
+	// every field of the Position starts from a field of the reader, each from a different one; the file name from the
+	// reader's string field
 	for _, u := range upds {
-		if strings.EqualFold(u.field, "Filename") && strings.HasPrefix(u.kind, "init:") && !u.inLoop {
-			initOK = true
+		if strings.HasPrefix(u.kind, "init:") && !u.inLoop {
+			initOf[u.field] = strings.TrimPrefix(u.kind, "init:")
 		}
 	}
+	distinct := map[string]bool{}
+	for _, v := range initOf {
+		distinct[v] = true
+	}
+	nameOK := roles.filename >= 0 && initOf["Filename"] == rst.Field(roles.filename).Name()
 	c.Check(rule, "reader positions: a position starts from the stored file name, offset, line and column", posFn.Pos(),
-		initOK && has("Offset", "init:offset", "", false) && has("Line", "init:line", "", false) && has("Column", "init:column", "", false),
+		nameOK && initOf["Offset"] != "" && initOf["Line"] != "" && initOf["Column"] != "" && len(distinct) == len(initOf) && len(initOf) == pst.NumFields(),
 		fmt.Sprintf("updates found: %v", desc))
 	c.Check(rule, "reader positions: every rune advances the offset by one", posFn.Pos(), has("Offset", "inc", "", true) && count("Offset") == 2, fmt.Sprintf("updates found: %v", desc))
 	c.Check(rule, "reader positions: a line terminator advances the line and resets the column to 1", posFn.Pos(),
 		has("Line", "inc", "nl", true) && has("Column", "one", "nl", true) && count("Line") == 2, fmt.Sprintf("updates found: %v", desc))
 	c.Check(rule, "reader positions: every other rune advances the column by one", posFn.Pos(), has("Column", "inc", "notnl", true) && count("Column") == 3, fmt.Sprintf("updates found: %v", desc))
+	return initOf
 }
 
 func sortedKeys(m map[string]bool) []string {
